@@ -9,6 +9,7 @@ import (
 	"flag"
 	"fmt"
 	"os"
+	"strings"
 	"sync"
 
 	jmespath "github.com/jmespath/go-jmespath"
@@ -56,11 +57,16 @@ func main() {
 						jp.Search(shared) // same expression, same document
 					case 2:
 						jmespath.Search(e, shared) // one-shot on the shared document
+						// never-seen-before spellings of the expression, different in every goroutine and
+						// round (a package-level cache takes its miss path concurrently)
+						jmespath.Search(e+strings.Repeat(" ", 1+r*8+g), shared)
+						jmespath.Compile(strings.Repeat(" ", 1+r*8+g) + e)
 					case 3:
 						var own interface{}
 						json.Unmarshal([]byte(docs[(ei+1)%len(docs)]), &own)
 						jp.Search(own) // same expression, different document
 						jmespath.Compile(e)
+						jmespath.Search(strings.Repeat("\t", 1+r*8+g)+e, own)
 					}
 				}(g)
 			}
